@@ -149,3 +149,110 @@ def iterhashlookupjoin(h):
             ctx.oblige('iterhashlookupjoin: only FieldSelectionError escapes, before any data row',
                        z3.BoolVal(res.exc.kind == 'FieldSelectionError' and inloop is None), res.exc.origin or '')
     h.explore(body)
+
+
+def right_padded_ok(o, lhdr_len, li, ri, rrow, rvind, missing):
+    """o == [missing] * len(lhdr) with o[li] = rrow[ri], followed by the right row's non-key cells"""
+    q = smt.fresh_int('q')
+    iv = lambda j: smt.ival(z3.Select(rvind.arr, j))
+    return z3.And(o.len == lhdr_len + rvind.len,
+                  z3.ForAll([q], z3.Implies(z3.And(0 <= q, q < o.len),
+                                            z3.Select(o.arr, q) == z3.If(q == li, z3.Select(rrow.arr, ri),
+                                                                         z3.If(q < lhdr_len, as_v(missing), z3.Select(rrow.arr, iv(q - lhdr_len)))))))
+
+
+@vc('C07.iterhashrightjoin', functions=[HJ + 'iterhashrightjoin'], props=['C07', 'C03', 'C02'],
+    assumptions=['contract of petl.util.lookups.lookup (key -> rows in table order): discharged by C07.lookup',
+                 'single key field given by name on both sides; both sides rectangular (the views stack() them first)',
+                 'nested stateless-body rule (engine meta-theorem)'])
+def iterhashrightjoin(h):
+    name = 'iterhashrightjoin'
+
+    def body(ctx):
+        def rv(ls):
+            r = ls['rvind']
+            return view_seq(r) if not isinstance(r, Seq) else r
+
+        def idx(x):
+            return smt.ival(as_v(x.items[0])) if hasattr(x, 'items') else smt.ival(z3.Select(x.arr, 0))
+
+        def inner(ls, x, dout):
+            rrow = view_seq(ls['_rrow'])
+            ctx.oblige('%s: each partner (left) row yields exactly one row: that left row followed by the streamed right row\'s non-key cells' % name,
+                       z3.And(dout.len == 1, joined_ok(out_row(dout, 0), view_seq(x), rrow, rv(ls))))
+
+        def outer(ls, x, dout):
+            rrow = view_seq(x)
+            ri, li = idx(ls['rkind']), idx(ls['lkind'])
+            k = z3.Select(rrow.arr, ri)
+            lhl = view_seq(ls['lhdr']).len
+            ctx.oblige('%s: a streamed right row whose key is not in the lookup yields one row: `missing` in every left position '
+                       'except the key, which is copied from the right row, then its non-key cells' % name,
+                       z3.Implies(z3.Not(has(k)), z3.And(dout.len == 1, right_padded_ok(out_row(dout, 0), lhl, li, ri, rrow, rv(ls), ls['missing']))))
+        loops = {(HJ + name, 1): LoopSpec(delta=outer, label='streamed rows'),
+                 (HJ + name, 0): LoopSpec(delta=inner, label='partner rows')}
+        it = h.interp(ctx, loops=loops)
+        it.overapprox_filters = True
+        L, R = sym_table(ctx, 'L', nmin=1), sym_table(ctx, 'R', nmin=1)
+        rows_are_sequences(ctx, R)
+        rectangular(ctx, R)
+        j = smt.fresh_int('r')
+        anyk = z3.Const('anyk', V)
+        lhdr_len = smt.seq_len(z3.Select(L.rows, 0))
+        ctx.facts.append(z3.ForAll([anyk, j], smt.seq_len(z3.Select(smt.seq_arr(rows_of(anyk)), j)) == lhdr_len))
+        ctx.facts.append(z3.ForAll([anyk], smt.seq_len(rows_of(anyk)) >= 0))
+        fn = closure_of(it, HJ + name)
+        res = run_generator(it, fn, [L, R, 'k', 'k', sym_cell('missing'), SymLookup(), None, None])
+        if res.exc is not None:
+            inloop = getattr(ctx, 'in_iteration', None)
+            ctx.oblige('%s: only FieldSelectionError escapes (unknown key field), before any data row' % name,
+                       z3.BoolVal(res.exc.kind == 'FieldSelectionError' and inloop is None), res.exc.origin or '')
+    h.explore(body)
+
+
+@vc('C07.iterhashantijoin', functions=[HJ + 'iterhashantijoin'], props=['C07', 'C03'],
+    assumptions=['single key field given by name on both sides; rows long enough for the key; set through its contract (T6: membership modulo ==)',
+                 'counting lemmas (C07.cnt.lemmas); invariant rule on the key-collecting loop, stateless-body rule on the probe loop'])
+def iterhashantijoin(h):
+    from contracts.lib_count import counting
+    name = 'iterhashantijoin'
+
+    def body(ctx):
+        box = {}
+
+        def idx(x):
+            return smt.ival(as_v(x.items[0]))
+
+        def CR(ls):
+            if 'C' not in box:
+                ri = idx(ls['rgetk'])
+                box['ri'] = ri
+                box['C'] = counting(ctx, 'CR', lambda i: bi.canon(z3.Select(src_row(R, i).arr, ri)), witness=True)
+            return box['C']
+
+        def inv(ls):
+            C = CR(ls)
+            kap = z3.Const('kap!a', V)
+            return z3.ForAll([kap], z3.Select(ls['rkeys'].has, kap) == (C(kap, ls.k.t) > 0))
+
+        def probe(ls, x, dout):
+            lrow = view_seq(x)
+            li = idx(ls['lgetk'])
+            k = z3.Select(lrow.arr, li)
+            jj = smt.fresh_int('j')
+            partner = z3.Exists([jj], z3.And(1 <= jj, jj < R.n, smt.py_eq(z3.Select(src_row(R, jj).arr, box['ri']), k)))
+            ctx.oblige('%s: a left row is emitted, once and unchanged, iff NO right row has its key' % name,
+                       z3.If(partner, dout.len == 0, z3.And(dout.len == 1, _t(row_eq(out_row(dout, 0), x)))))
+        it = h.interp(ctx, loops={(HJ + name, 0): LoopSpec(invariant=inv, label='right keys'),
+                                  (HJ + name, 1): LoopSpec(delta=probe, label='left rows')})
+        it.symbolic_dicts = True
+        it.check_pulls = False
+        L, R = sym_table(ctx, 'L', nmin=1), sym_table(ctx, 'R', nmin=1)
+        rows_are_sequences(ctx, L); rows_are_sequences(ctx, R)
+        rectangular(ctx, L); rectangular(ctx, R)
+        res = run_generator(it, closure_of(it, HJ + name), [L, R, 'k', 'k'])
+        if res.exc is not None:
+            inloop = getattr(ctx, 'in_iteration', None)
+            ctx.oblige('%s: only FieldSelectionError escapes (unknown key field), before any data row' % name,
+                       z3.BoolVal(res.exc.kind == 'FieldSelectionError' and inloop is None), res.exc.origin or '')
+    h.explore(body)
